@@ -1,11 +1,14 @@
 package e2e
 
 import (
+	"context"
 	"fmt"
 	"net"
+	"syscall"
 	"time"
 
 	"github.com/bluenviron/gortsplib/v5/pkg/base"
+	"github.com/bluenviron/gortsplib/v5/pkg/headers"
 
 	"verifharness/pbt"
 )
@@ -26,6 +29,9 @@ type LiveCase struct {
 	// is up to one second shorter: FirstDelayMs and EveryMs have to stay below TimeoutMs - 1000.
 	TimeoutMs int `json:"timeout_ms,omitempty"`
 	Keep    string `json:"keepalive,omitempty"` // GET_PARAMETER or OPTIONS
+	// DropConn (udp and mcast): the control connection goes away right after PLAY/RECORD; a session that streams over UDP
+	// does not end with it - the session timeout applies instead
+	DropConn bool `json:"drop_conn,omitempty"`
 }
 
 type liveStats struct {
@@ -48,7 +54,7 @@ func RunLive(c LiveCase) error {
 // (server_session.go runInner / server_conn_reader.go).
 func (c LiveCase) expectedAlive() bool {
 	switch {
-	case c.Transport == "udp" && c.Mode == "play":
+	case (c.Transport == "udp" || c.Transport == "mcast") && c.Mode == "play":
 		return c.Control || c.Media // keep-alive requests or RTCP
 	case c.Transport == "udp" && c.Mode == "record":
 		return c.Media // RTP/RTCP must keep arriving
@@ -64,7 +70,21 @@ func runLive(c LiveCase) (*liveStats, error) {
 		c02LiveTimeout = time.Duration(c.TimeoutMs) * time.Millisecond
 	}
 	desc := SimpleDesc([]int{1, 1})
-	w, err := StartWorld(WorldCfg{UDP: true, Desc: desc, ReadTimeout: c02LiveTimeout, WriteTimeout: c02LiveTimeout, IdleTimeout: c02LiveTimeout})
+	if c.DropConn {
+		c.Control = false // no connection to send requests on
+	}
+	wcfg := WorldCfg{UDP: true, Desc: desc, ReadTimeout: c02LiveTimeout, WriteTimeout: c02LiveTimeout, IdleTimeout: c02LiveTimeout}
+	localIP := "127.0.0.1"
+	if c.Transport == "mcast" {
+		if multicastIP() == "" {
+			st.Inconcl = true
+			return st, nil
+		}
+		wcfg.Multicast, wcfg.IP = true, multicastIP()
+		localIP = multicastIP()
+	}
+	st.ExpectedAlive = c.expectedAlive()
+	w, err := StartWorld(wcfg)
 	if err != nil {
 		return st, nil
 	}
@@ -85,7 +105,14 @@ func runLive(c LiveCase) (*liveStats, error) {
 			socks[i] = s
 		}
 	}
-	r, err := dialRaw(w.Host)
+	var r *rawClient
+	switch c.Transport {
+	case "tcp-http", "tcp-ws":
+		// the peer reaches the server through the RTSP-over-HTTP / WebSocket tunnel; everything else is as over TCP
+		r, err = dialRawTunnel(w.Host, c.Transport[4:], false)
+	default:
+		r, err = dialRawFrom(w.Host, localIP)
+	}
 	if err != nil {
 		return st, nil
 	}
@@ -117,13 +144,40 @@ func runLive(c LiveCase) (*liveStats, error) {
 	if c.Transport == "udp" {
 		tr = fmt.Sprintf("RTP/AVP;unicast;client_port=%d-%d", base0, base0+1)
 	}
+	if c.Transport == "mcast" {
+		tr = "RTP/AVP;multicast"
+	}
 	if c.Mode == "record" {
 		tr += ";mode=record"
 	}
 	tu, _ := base.ParseURL(w.URL(path + "/trackID=0"))
 	res, err := must(&base.Request{Method: base.Setup, URL: tu, Header: base.Header{"Transport": base.HeaderValue{tr}}})
 	if err != nil {
+		if c.Transport == "mcast" {
+			st.Inconcl = true
+			return st, nil // multicast cannot be set up here
+		}
 		return st, err
+	}
+	var mcastRTCP *net.UDPAddr
+	var mcastSock *net.UDPConn
+	if c.Transport == "mcast" {
+		var th headers.Transport
+		if err := th.Unmarshal(res.Header["Transport"]); err != nil || th.Destination2 == nil || th.Ports == nil {
+			return st, fmt.Errorf("harness: multicast SETUP answered without destination and ports")
+		}
+		mcastRTCP = &net.UDPAddr{IP: net.ParseIP(*th.Destination2), Port: th.Ports[1]}
+		// the reader's reports come from its address and the group's RTCP port
+		lc := net.ListenConfig{Control: func(_, _ string, rc syscall.RawConn) error {
+			return rc.Control(func(fd uintptr) { syscall.SetsockoptInt(int(fd), syscall.SOL_SOCKET, syscall.SO_REUSEADDR, 1) }) //nolint:errcheck
+		}}
+		pc, err := lc.ListenPacket(context.Background(), "udp4", fmt.Sprintf("%s:%d", localIP, th.Ports[1]))
+		if err != nil {
+			st.Inconcl = true
+			return st, nil
+		}
+		mcastSock = pc.(*net.UDPConn)
+		defer mcastSock.Close()
 	}
 	sess := sessionIDOf(res)
 	hs := func() base.Header { return base.Header{"Session": base.HeaderValue{sess}} }
@@ -142,6 +196,9 @@ func runLive(c LiveCase) (*liveStats, error) {
 	}
 	if _, err := must(&base.Request{Method: start, URL: u, Header: hs()}); err != nil {
 		return st, err
+	}
+	if c.DropConn {
+		r.nc.Close()
 	}
 	srvPorts := [2]int{portOf(w.S.UDPRTPAddress), portOf(w.S.UDPRTCPAddress)}
 	if c.FirstDelayMs > 0 && st.ExpectedAlive {
@@ -167,7 +224,9 @@ func runLive(c LiveCase) (*liveStats, error) {
 			} else {
 				b = mkRTCP("rr", 0x0C02)
 			}
-			if c.Transport == "udp" {
+			if c.Transport == "mcast" {
+				mcastSock.WriteToUDP(b, mcastRTCP) //nolint:errcheck
+			} else if c.Transport == "udp" {
 				if c.Mode == "record" {
 					socks[0].WriteToUDP(b, &net.UDPAddr{IP: net.ParseIP("127.0.0.1"), Port: srvPorts[0]}) //nolint:errcheck
 				} else {
@@ -230,6 +289,9 @@ func runLive(c LiveCase) (*liveStats, error) {
 		time.Sleep(every)
 		if d, ok := closedAt(); ok {
 			st.ClosedAfter = d
+			if c.DropConn && d < c02LiveTimeout-1500*time.Millisecond {
+				return st, fmt.Errorf("the session ended %v after its control connection went away although it streams over %s: the session timeout (%v) applies there, not the life of the connection", d.Round(time.Millisecond), c.Transport, c02LiveTimeout)
+			}
 			return st, nil
 		}
 	}
